@@ -209,6 +209,24 @@ pub fn cfg_strategy(max_targets: usize, mode: CycleMode) -> impl Strategy<Value 
         })
 }
 
+/// A small generated configuration embedded in 20-199 independent filler targets.
+pub fn cfg_strategy_big(mode: CycleMode) -> impl Strategy<Value = CfgCase> {
+    (cfg_strategy(8, mode), gen::filler_count()).prop_map(|(c, (n_fill, pos))| {
+        let before = pick(pos, n_fill + 1);
+        // mostly at the very end or the very beginning of the declaration order
+        let before = match pos % 4 {
+            0 => n_fill,
+            1 => 0,
+            _ => before,
+        };
+        CfgCase {
+            config: gen::embed_in_fillers(&c.config, n_fill, before),
+            visible: c.visible,
+            changes: c.changes,
+        }
+    })
+}
+
 fn to_idx(cfg: &ConfigSpec, groups: &[Vec<String>]) -> Result<Vec<Vec<usize>>, String> {
     let idx = gen::index_of(cfg);
     groups
@@ -570,6 +588,7 @@ oracle: valid_layering(groups, requested set, dep). non-trivial = at least one d
     ctx.drive("config", || cfg_strategy(12, CycleMode::Acyclic), n / 2, |c, _| check_cfg(c, Side::Acyclic));
     ctx.drive("config-wide", || cfg_strategy(40, CycleMode::Acyclic), n / 10, |c, _| check_cfg(c, Side::Acyclic));
     ctx.drive("config-any", || cfg_strategy(8, CycleMode::Any), n / 10, |c, _| check_cfg(c, Side::Acyclic));
+    ctx.drive("config-embedded-in-64-200-targets", || cfg_strategy_big(CycleMode::Acyclic), n / 40, |c, _| check_cfg(c, Side::Acyclic));
     ctx.drive_all("golden-cli", golden_c03(), "golden regression cases (CLI)", |c, w| check_cli(c, w, Side::Acyclic));
     let n2 = ctx.n(100, 2000);
     ctx.drive("cli", || cfg_strategy(8, CycleMode::Acyclic), n2, |c, w| check_cli(c, w, Side::Acyclic));
@@ -589,6 +608,7 @@ oracle: error (graph/cycle), never groups, no panic, no hang (30 s watchdog). no
     ctx.drive("dag-random", || random_dag(40, true), n / 2, |c, _| check_dag(c, Side::Cyclic));
     ctx.drive("config", || cfg_strategy(10, CycleMode::ForcedCycle), n / 2, |c, _| check_cfg(c, Side::Cyclic));
     ctx.drive("config-any", || cfg_strategy(8, CycleMode::Any), n / 5, |c, _| check_cfg(c, Side::Cyclic));
+    ctx.drive("config-embedded-in-64-200-targets", || cfg_strategy_big(CycleMode::ForcedCycle), n / 40, |c, _| check_cfg(c, Side::Cyclic));
     let n2 = ctx.n(80, 1500);
     ctx.drive("cli", || cfg_strategy(8, CycleMode::ForcedCycle), n2, |c, w| check_cli(c, w, Side::Cyclic));
 }
